@@ -19,7 +19,7 @@ Definition rows_eqb := list_eqb row_eqb.
 Definition universe : list (N * N) := list_prod [0; 1] [0; 1; 2; 3; 4; 5].
 
 Definition listing (l : list entry) : list row :=
-  flat_map (fun dk => match latest (fst dk) (snd dk) l with
+  flat_map (fun dk => match visible (fst dk) (snd dk) l with
                       | Some e => [(fst dk, snd dk, e_val e, e_del e)]
                       | None => []
                       end) universe.
